@@ -154,6 +154,15 @@ register("C16", "proof",
          TRUST + " 'Any n' is claimed for n<=6 (7) only; itertools.product contract assumed; M6 gate actions.",
          "pyvc segment VCs (ANF + z3) on the real AST + lemma; brute-force GROUND cross-check", "DESIGN.md 5 (C16)")
 
+register("C06", "proof",
+         "Frame obligation by representation hiding: the real determine_lc_class<n> is run on a stub that physically holds only the support-pattern multiset of the group "
+         "and the entangled flags (any other access raises) for the data of every LC orbit representative (878), returning the filed id - so the id is a function of "
+         "LC-invariant data, independent of signs and generators. With the round trip on all 878 ids and the oracle's orbit count K = 2,5,18,93,760 a counting lemma gives "
+         "the bijection orbit <-> id. Independent cross-check: every stabilizer group for n<=5 (75735 five-qubit groups; all 4922775 six-qubit groups in the thorough "
+         "tier, count-checked) and every graph state on 2..6 vertices is classified by the real classifier and compared with the oracle's orbit.",
+         TRUST + " Quick tier n=6: first half of M5 (every stabilizer state is LC-equivalent to a graph state) is trusted; thorough replaces it by enumeration.",
+         "representation-hiding frame run of the real code + counting lemma; exhaustive classification (GROUND) against LC-orbit oracle", "DESIGN.md 5 (C06)")
+
 NOT_APPLICABLE = []   # every property is claimed; sub-claims outside the family's reach are labelled in the evidence
 
 
